@@ -77,6 +77,10 @@ EXPLANATION += (
     ' Round 8: the worker count is tested against a constant only at the two confirmed serial-or-parallel sites (R-PROV/worker-count-special-case).'
 )
 
+EXPLANATION += (
+    ' Round 9: an integer type chosen inside a worker is sized from a bound of the kind of what it stores, values or counts (R-CAP/bound-kind).'
+)
+
 RULE_TEXT = (
     "one obligation per (sink site, set of source labels) finding, per "
     "benign source used, per RNG construction, per merge loop, per worker "
@@ -117,6 +121,7 @@ def check(ctx):
     check_merge_order(ctx)
     check_worker_count(ctx)
     check_worker_count_special_cases(ctx)
+    check_chunk_local_types(ctx)
     # settings this property depends on are handed down every call
     # chain, never left to a callee's default (sa/rules/forwarding.py)
     from ..rules.forwarding import check_forwarding
@@ -715,3 +720,24 @@ def check_worker_count_special_cases(ctx):
     if n < 2:
         raise AnalysisError('the confirmed serial-or-parallel tests of the '
                             'worker count were not found')
+
+
+def check_chunk_local_types(ctx):
+    """a worker sees one chunk of the pairs, and how the pairs are cut into
+    chunks follows from n_processors.  An integer type a worker chooses
+    from what it sees must be wide enough whatever the chunk: sized from
+    the largest value it stores when it stores values, from the number of
+    entries when it stores running counts (R-CAP/bound-kind,
+    sa/rules/capacity.py).  A type sized from the wrong one of the two
+    wraps the stored numbers for some chunkings and not for others."""
+    from ..rules.capacity import check_bound_kind
+    n = 0
+    for fi in ctx.db.iter_functions():
+        if fi.module.short in ('diff_exp.markers', 'diff_exp.p_value_mask',
+                               'diff_exp.p_value_markers',
+                               'diff_exp.score_utils',
+                               'utils.csc_to_csr_parallel'):
+            n += check_bound_kind(ctx, fi)
+    if n < 2:
+        raise AnalysisError(f'only {n} arrays with a chosen integer type '
+                            'found in the worker code of the marker stages')
